@@ -878,6 +878,22 @@ fn minimise(build: &str, call: Call, pass: Pass, class: &str, scratch: &std::pat
             }
             call = Call::Format { ty, raw: r, pic: p, display, flags: fl };
         }
+        Call::Held { ty, raw, pic, fty, fillers, at_once } => {
+            // fewer fillers, one at a time
+            let mut f = fillers;
+            let mk = |f: &Vec<(i64, String)>| Call::Held { ty, raw, pic: pic.clone(), fty, fillers: f.clone(), at_once };
+            let mut i = 0;
+            while i < f.len() {
+                let mut cand = f.clone();
+                cand.remove(i);
+                if fails(&mk(&cand), &pass) {
+                    f = cand;
+                } else {
+                    i += 1;
+                }
+            }
+            call = mk(&f);
+        }
         _ => {}
     }
     (call, pass)
@@ -1165,6 +1181,62 @@ fn coordinator(tier: &str, calls_override: Option<u64>, out: &std::path::Path) -
         lines.push(format!("VIOLATION property={} replay={}", PROPERTY, path.display()));
         exit = EXIT_VIOLATION;
     }
+    // ---- scenario T: caller threads under Miri's seeded scheduler ----
+    // (only if nothing was found so far: a broken tree is reported by the cheaper phases first)
+    let no_miri = std::env::var_os("VERIF_NO_MIRI").is_some();
+    let mut miri_note = json!({"skipped": "an earlier phase reported a violation, or VERIF_NO_MIRI is set"});
+    if exit == EXIT_OK && harness_errors.is_empty() && !no_miri {
+        // A high preemption rate (Miri switches threads after almost every basic block) interleaves the
+        // threads, which run the same functions in step, at the finest grain; lower rates give longer
+        // uninterrupted stretches. (seeds, preemption rates, phase mask): mask 3 = concurrent first serde use + every function of
+        // the table in lock step; 15 = additionally chained producers and generated calls (slow under Miri)
+        let plans: Vec<(u64, Vec<&str>, u32)> = if tier == "thorough" { vec![(48, vec!["0.9", "0.5", "0.1"], 3), (8, vec!["0.9", "0.2"], 15)] } else { vec![(4, vec!["0.9", "0.3"], 3)] };
+        let mut total = 0u64;
+        let mut wall_m = 0.0;
+        let mut skipped: Option<String> = None;
+        for (seeds_n, rates, mask) in plans {
+            let extra = vec!["3".to_string(), mask.to_string()];
+            let m = simcore::miri::run_with("c03", "c03_threads", seeds_n, &rates, seed, &extra);
+            total += m.seeds_run;
+            wall_m += m.wall_s;
+            if let Some((s, rate, text)) = m.failure {
+                println!("miri: FAILURE at scheduler seed {} preemption rate {} (phase mask {})", s, rate, mask);
+                let first = text.lines().find(|l| l.contains("PANIC in a safe public call")).unwrap_or("").to_string();
+                let sig = format!("threads:{}", first.split("panicked at ").nth(1).unwrap_or(&first).split(':').take(2).collect::<Vec<_>>().join(":"));
+                let what: Vec<&str> = text.lines().skip_while(|l| !l.contains("PANIC in a safe public call")).take(3).collect();
+                let what = if what.is_empty() { tail_chars(&text, 700).replace('\n', " | ") } else { what.join(" | ") };
+                println!("violation class=panic build=miri sig={} : threads using the crate concurrently -> {}", sig, what);
+                if let Some(desc) = known.lookup(PROPERTY, &sig) {
+                    println!("KNOWN-FINDING: property={} {} ({})", PROPERTY, sig, desc);
+                } else {
+                    n_viol += 1;
+                    let path = simcore::verif_root().join("replays").join(format!("C03-miri-{}-{}.json", seed, s));
+                    let body = json!({"property": PROPERTY, "kind": "miri", "signature": sig, "miri_seed": s, "preemption_rate": rate, "workload_seed": seed, "extra_args": extra, "detail": text});
+                    if let Err(e) = simcore::evidence::write_json_atomic(&path, &body) {
+                        eprintln!("harness error: cannot write replay: {e}");
+                        return EXIT_HARNESS;
+                    }
+                    lines.push(format!("VIOLATION property={} replay={}", PROPERTY, path.display()));
+                    exit = EXIT_VIOLATION;
+                }
+                break;
+            }
+            if let Some(why) = m.skipped {
+                skipped = Some(why);
+                break;
+            }
+        }
+        match &skipped {
+            Some(why) => println!("miri: skipped: {}", why.lines().last().unwrap_or("")),
+            None if exit == EXIT_OK => println!("miri: {} scheduler seeds clean in {:.1}s (threads scenario)", total, wall_m),
+            None => {}
+        }
+        miri_note = json!({
+            "scheduler": "Miri seeded scheduler (-Zmiri-many-seeds, -Zmiri-preemption-rate); one (miri seed, rate, workload seed) = one repeatable interleaving",
+            "scenario": "3 threads: concurrent first serde use of every type, then every function of the workload table in lock step with per-thread operands; thorough adds chained producers and generated format / parse / held-value calls",
+            "scheduler_seeds_run": total, "wall_s": wall_m, "skipped": skipped,
+        });
+    }
     if exit == EXIT_OK && !harness_errors.is_empty() {
         for e in &harness_errors {
             eprintln!("harness error: {e}");
@@ -1217,6 +1289,7 @@ fn coordinator(tier: &str, calls_override: Option<u64>, out: &std::path::Path) -
             "batch_hash": hashes.iter().map(|(b, h)| format!("{}:{:016x}", b, h)).collect::<Vec<_>>().join(" "),
             "workers": workers,
             "first_use_probes": {"fresh_processes": first_use_probes, "what": "first serde serialization/deserialization of each type in a process (builds the shared static formatters) with allocation request 0..3 refused once / persistently, then the same calls fault-free; harness-side non-allocating serializer and deserializer; third-party start-up allocation (parking_lot table) warmed up first"},
+            "interleavings": miri_note,
             "process_isolation": "each build runs in worker processes; a worker death (abort, stack overflow) is located by a traced re-run and confirmed in a fresh process",
             "components": {
                 "real": ["all of sqldatetime in two build configurations", "core::fmt machinery between LazyFormat and the sink"],
@@ -1246,6 +1319,11 @@ fn coordinator(tier: &str, calls_override: Option<u64>, out: &std::path::Path) -
         println!("{l}");
     }
     exit
+}
+
+fn tail_chars(s: &str, n: usize) -> String {
+    let chars: Vec<char> = s.chars().collect();
+    chars[chars.len().saturating_sub(n)..].iter().collect()
 }
 
 /// Waits for a traced worker and returns the last "BEGIN idx pass" it announced, if it died.
@@ -1287,7 +1365,9 @@ fn locate_pass(build: &str, seed: u64, n_calls: u64, idx: u64, pno: u64, scratch
     };
     let result = exec_in_fresh_process(build, &call, &pass, scratch);
     if class_of(&result) == "ok" || class_of(&result) == "harness" {
-        None
+        // not reproducible as a single call: state left by earlier calls of the worker takes part;
+        // the confirmation step replays a suffix of the worker's history
+        Some((pass, "crash: the worker process died in this pass (not reproducible as a single call)".to_string()))
     } else {
         Some((pass, result))
     }
@@ -1321,6 +1401,9 @@ fn replay(path: &str) -> i32 {
         }
     };
     let build = v["build"].as_str().unwrap_or("relchk").to_string();
+    if v["kind"].as_str() == Some("miri") {
+        return simcore::miri::replay(PROPERTY, "c03", "c03_threads", &v, path);
+    }
     if v["kind"].as_str() == Some("first_use") {
         let r = first_use_in_fresh_process(
             &build,
